@@ -486,6 +486,47 @@ FormatterToHTML::endElement(const XMLCh* const  name)
 
 
 void
+FormatterToHTML::checkRawTextCharacters(
+            const XMLCh* const  chars,
+            const size_type     length)
+{
+    // The content of script and style elements is not escaped, so
+    // there are no character references there either: a character
+    // the output encoding cannot represent is an error.
+    if (m_stream != 0)
+    {
+        for (size_type i = 0; i < length; ++i)
+        {
+            if (chars[i] > m_maxCharacter)
+            {
+                XalanUnicodeChar    theChar = chars[i];
+
+                if (isUTF16Surrogate(chars[i]) == true &&
+                    i + 1 < length &&
+                    0xdc00 <= chars[i + 1] && chars[i + 1] < 0xe000)
+                {
+                    theChar = ((chars[i] - 0xd800) << 10) + chars[i + 1] - 0xdc00 + 0x00010000;
+
+                    ++i;
+                }
+
+                if (m_stream->canTranscodeTo(theChar) == false)
+                {
+                    XalanDOMString  theBuffer(getMemoryManager());
+
+                    throw XalanTranscodingServices::UnrepresentableCharacterException(
+                                theChar,
+                                m_encoding,
+                                theBuffer);
+                }
+            }
+        }
+    }
+}
+
+
+
+void
 FormatterToHTML::characters(
             const XMLCh* const  chars,
             const size_type     length)
@@ -504,11 +545,15 @@ FormatterToHTML::characters(
         }
         else if (m_inScriptElemStack.back() == true)
         {
+            checkRawTextCharacters(chars, length);
+
             charactersRaw(chars, length);
         }
         else if (m_isRawStack.empty() == false &&
                  m_isRawStack.back() == true)
         {
+            checkRawTextCharacters(chars, length);
+
             writeParentTagEnd();
 
             m_ispreserve = true;
